@@ -1,6 +1,7 @@
 import MockeryModel.Config.Select
 import MockeryLemmas.Select
 import MockeryModel.Generated.Decide
+import MockeryLemmas.InjectT
 /-!
 # C07 — Exactly the configured interfaces and packages are mocked, once per config entry
 
@@ -352,5 +353,30 @@ theorem exclusion_model_is_the_translated_source (m : Matcher) (l : List String)
     cases m r p with
     | none => simp [throw, throwThe, MonadExceptOf.throw, selErrName, Except.mapError]
     | some b => cases b <;> simp [ih, Except.mapError, pure, Except.pure]
+
+
+/-! ## recursive injection is the translated source -/
+
+/-- **model = translation** (the loop over the sub-packages in `RootConfig.Initialize`): `injectOne` is the fold of one
+step over the sub-packages the go tool lists, and that step is the interpretation of the translated loop body – an
+excluded sub-package changes nothing, an invalid exclusion regex is an error that changes nothing, every other
+sub-package gets the parent's config merged into its own (a fresh one if it is not configured) and is stored -/
+theorem recursive_injection_is_the_translated_source (ft : FieldTable) (m : Matcher) (subPkgs : String → List String)
+    (ps : List (String × PkgOut)) (parent : String) (pc : PkgOut) (h : getPkg ps parent = some pc)
+    (acc : List (String × PkgOut)) (sub : String) :
+    injectOne ft m subPkgs ps parent = (subPkgs parent).foldlM (injectStepE ft m pc.config) ps ∧
+    (let st := runInject ft pc.config sub acc
+        (Generated.Merge.rootInjectEntryEffects
+          (exceptToOption (shouldExclude m (listOf pc.config "exclude-subpkg-regex") sub)) (getPkg acc sub).isSome)
+     match injectStepE ft m pc.config acc sub with
+     | .ok acc' => st.failed = false ∧ st.acc = acc'
+     | .error _ => st.failed = true ∧ st.acc = acc) :=
+  ⟨injectOne_is_fold ft m subPkgs ps parent pc h, injectStep_translated ft m pc.config acc sub⟩
+
+/-- the translated loop body, spelled out -/
+example : Generated.Merge.rootInjectEntryEffects none true = ["error: exclude-subpkg-regex"] ∧
+    Generated.Merge.rootInjectEntryEffects (some true) false = [] ∧
+    Generated.Merge.rootInjectEntryEffects (some false) false = ["sub := new", "merge parent config into sub.config", "store sub"] ∧
+    Generated.Merge.rootInjectEntryEffects (some false) true = ["sub := existing", "merge parent config into sub.config", "store sub"] := by decide
 
 end Mockery.C07
